@@ -609,3 +609,55 @@ Proof.
     unfold wf_hist in Hwf. apply andb_true_iff in Hwf as [_ Hwf]. apply nodupb_NoDup. exact Hwf.
   - exact Hl.
 Qed.
+
+(* ---------------------------------------------------------------- the late wake-up *)
+(* resolve_hostname("a.local.", timeout 1001 ms) at t; the daemon next runs at t + 1001, one
+   millisecond after the retransmission became due and exactly at the deadline *)
+Definition name_a_local : name := [97; 46; 108; 111; 99; 97; 108; 46].
+Definition late_witness : list iter :=
+  [ mkIter 1000000 [CResolve name_a_local (Some 1001) 1] [];
+    mkIter 1001001 [] [] ].
+
+Lemma late_refuted :
+  wf_hist late_witness = true /\ late late_witness = true /\ chk_C17 late_witness (run late_witness) = false.
+Proof. vm_compute. auto. Qed.
+
+(* what the model of the code does there: after SearchTimeout and SearchStopped it delivers
+   SearchStarted again and sends the A+AAAA query at the deadline, and a retransmission
+   stays queued although no search is open *)
+Lemma late_behaviour :
+  map (fun o => (o_events o, o_queries o)) (run late_witness)
+  = [ ([(1, EStarted name_a_local)], [host_query name_a_local]);
+      ([(1, ETimeout name_a_local); (1, EStopped name_a_local); (1, EStarted name_a_local)],
+       [host_query name_a_local]) ]
+  /\ s_res (state_after st0 late_witness) = []
+  /\ map rr_time (s_retr (state_after st0 late_witness)) = [1003001].
+Proof. vm_compute. auto. Qed.
+
+(* ---------------------------------------------------------------- a non-trivial history *)
+(* resolve "A.local." (timeout 20 s); an A record for "a.LOCAL." (TTL 10) arrives on interface 2;
+   the daemon runs at every time it asked for.  The history is well formed and never late; the
+   trace shows AddressesFound, the refresh question at 80 %, AddressesRemoved at expiry,
+   SearchTimeout / SearchStopped at the deadline. *)
+Definition ex_host : name := [65; 46; 108; 111; 99; 97; 108; 46].          (* A.local. *)
+Definition ex_owner : name := [97; 46; 76; 79; 67; 65; 76; 46].            (* a.LOCAL. *)
+Definition ex_rec : inrec := mkIn true 1 ex_owner 1 true 10 [192; 168; 1; 20].
+Definition ex_hist : list iter :=
+  [ mkIter 1000000 [CResolve ex_host (Some 20000) 1] [];
+    mkIter 1000100 [] [mkMsg 2 [ex_rec]];
+    mkIter 1001000 [] []; mkIter 1003000 [] []; mkIter 1007000 [] [];
+    mkIter 1008100 [] []; mkIter 1010100 [] []; mkIter 1015000 [] []; mkIter 1020000 [] [] ].
+
+Lemma ex_hist_ok :
+  wf_hist ex_hist = true /\ late ex_hist = false /\ chk_C17 ex_hist (run ex_hist) = true
+  /\ map (fun o => (o_now o, o_events o, o_queries o)) (run ex_hist)
+     = [ (1000000, [(1, EStarted ex_host)], [host_query ex_host]);
+         (1000100, [(1, EFound ex_owner [([192; 168; 1; 20], 2)])], []);
+         (1001000, [(1, EStarted ex_host)], [host_query ex_host]);
+         (1003000, [(1, EStarted ex_host)], [host_query ex_host]);
+         (1007000, [(1, EStarted ex_host)], [host_query ex_host]);
+         (1008100, [], [[(name_a_local, 1)]]);
+         (1010100, [(1, ERemoved ex_owner [([192; 168; 1; 20], 2)])], []);
+         (1015000, [(1, EStarted ex_host)], [host_query ex_host]);
+         (1020000, [(1, ETimeout name_a_local); (1, EStopped name_a_local); (1, EClosed)], []) ].
+Proof. vm_compute. auto. Qed.
